@@ -569,6 +569,8 @@ pub struct World {
 impl World {
     /// Two real endpoints over a fresh link.
     pub fn two(cap: usize, a: &SideCfg, b: &SideCfg) -> Self {
+        // experiment knob (never set by the registered checks): force a link capacity on every two-endpoint driver
+        let cap = std::env::var("VERIF_FORCE_CAP").ok().and_then(|v| v.parse().ok()).unwrap_or(cap);
         let link = Link::new(cap);
         let mut w = World {
             sim: Sim::new(link.clone()),
